@@ -38,29 +38,236 @@ def coq_unit(loc, ns, table_name):
     return "(%s, %s, %s)" % (core.coq_str(loc), core.coq_opt(ns, core.coq_str), table_name)
 
 
-def gen_requests(rng, touch_list, n):
-    reqs = [[]]                      # a page that uses no translation at all
-    idx = list(range(len(touch_list)))
-    units = sorted({(t[0], t[1]) for t in touch_list}, key=lambda x: (x[0] or "", x[1]))
-    by_unit = {u: [i for i in idx if (touch_list[i][0], touch_list[i][1]) == u] for u in units}
-    for u in units:                  # every unit alone
-        reqs.append([rng.choice(by_unit[u])])
-    while len(reqs) < n:
+DIMS = {
+    "units": ["0", "1", "2-3", "4+"],
+    "id": ["null", "ns"],
+    "hist": ["none", "all_first", "all_repeat", "mixed"],
+    "first_touch_outside": ["no", "yes"],
+    "prev": ["start", "empty", "same", "all", "overlap", "disjoint"],
+    "outside": ["none", "other_unit", "same_unit"],
+    "defaulted": ["no", "yes"],
+    "touchkind": ["none", "plain_top", "plain_sub", "interp_top", "interp_sub"],
+    "repeat_in_request": ["no", "yes"],
+    "mix": ["-", "one", "locales", "namespaces", "both"],
+    "cls_pos": ["none"] + ["%s@%s" % (c, p) for c in sc.CLASSES for p in ("first", "middle", "last")],
+}
+EMPTY_VALUES = {"units": "0", "hist": "none", "touchkind": "none", "mix": "-", "cls_pos": "none"}
+
+
+def infeasible(A, a, B, b):
+    v = {A: a, B: b}
+    for d, e in EMPTY_VALUES.items():
+        if v.get(d) == e:                       # the request uses no unit
+            for d2, x in v.items():
+                if d2 == d:
+                    continue
+                if d2 in EMPTY_VALUES and x != EMPTY_VALUES[d2]:
+                    return "a request that uses no unit has units=0, hist=none, touchkind=none, mix=-, cls_pos=none"
+                if (d2, x) in (("first_touch_outside", "yes"), ("defaulted", "yes"), ("repeat_in_request", "yes"),
+                               ("outside", "same_unit"), ("prev", "same"), ("prev", "overlap")):
+                    return "needs at least one unit used inside the provider"
+    for d, e in EMPTY_VALUES.items():           # ... and conversely
+        if d in v and v[d] != e:
+            for d2, x in v.items():
+                if d2 != d and d2 in EMPTY_VALUES and x == EMPTY_VALUES[d2]:
+                    return "a request that uses no unit has units=0, hist=none, touchkind=none, mix=-, cls_pos=none"
+    if v.get("units") == "1" and v.get("hist") == "mixed":
+        return "mixed history needs two units"
+    if v.get("id") == "null" and v.get("mix") in ("namespaces", "both"):
+        return "projects without namespaces have one (null) id"
+    if v.get("mix") == "one" and v.get("units") == "4+":
+        return "one requested (namespace, locale) reads at most the locales of its defaulting chain (<= 3)"
+    if v.get("hist") == "all_first" and v.get("prev") in ("same", "all", "overlap"):
+        return "a unit shared with the previous request has been seen"
+    if v.get("hist") == "mixed" and v.get("prev") in ("same", "all", "start"):
+        return "mixed history: some unit seen (not at process start), some not (not all used by the previous request)"
+    if v.get("hist") == "all_repeat" and v.get("prev") == "start":
+        return "nothing has been seen at process start"
+    return None
+
+
+def units_bucket(n):
+    return "0" if n == 0 else "1" if n == 1 else "2-3" if n <= 3 else "4+"
+
+
+class Plan:
+    """everything the tagger needs about one probe project"""
+
+    def __init__(self, proj, touch_list, tables):
+        self.proj, self.touch_list = proj, touch_list
+        self.info = []
+        for ns, loc, path, args in touch_list:
+            eff = sc.effective_locale(proj, ns, loc, path)
+            kind = ("interp" if args else "plain") + ("_sub" if len(path) > 1 else "_top")
+            self.info.append({"unit": (ns, eff), "req": (ns, loc), "kind": kind, "defaulted": eff != loc})
+        self.all_units = sorted({i["unit"] for i in self.info}, key=lambda x: (x[0] or "", x[1]))
+        self.cls = {}
+        for u in self.all_units:
+            strings = tables["units"][u]["strings"]
+            cp = set()
+            for k, t in enumerate(strings):
+                pos = []
+                if k == 0:
+                    pos.append("first")
+                if k == len(strings) - 1:
+                    pos.append("last")
+                if 0 < k < len(strings) - 1:
+                    pos.append("middle")
+                for c in sc.classify(t):
+                    for q in pos:
+                        cp.add("%s@%s" % (c, q))
+            self.cls[u] = cp
+        self.idkind = "ns" if proj.namespaces else "null"
+
+    def new_state(self):
+        return {"seen": set(), "first_outside": set(), "prev": None}
+
+    def tags(self, req, st):
+        """tags of one request given the state of the process before it; returns (tags, state after)"""
+        ins = [self.info[i] for i in req["in"]]
+        outs = [self.info[i] for i in req["out"]]
+        used = {i["unit"] for i in ins}
+        out_units = {i["unit"] for i in outs}
+        seen_before = st["seen"]
+        first_outside = set(st["first_outside"]) | {u for u in out_units if u not in seen_before}
+        t = {"units": {units_bucket(len(used))}, "id": {self.idkind}}
+        if not used:
+            t["hist"] = {"none"}
+        elif used <= seen_before:
+            t["hist"] = {"all_repeat"}
+        elif not (used & seen_before):
+            t["hist"] = {"all_first"}
+        else:
+            t["hist"] = {"mixed"}
+        t["first_touch_outside"] = {"yes" if used & first_outside else "no"}
+        prev = st["prev"]
+        if prev is None:
+            t["prev"] = {"start"}
+        elif not prev:
+            t["prev"] = {"empty"}
+        elif used and prev == used:
+            t["prev"] = {"same"}
+        elif prev == set(self.all_units):
+            t["prev"] = {"all"}
+        elif prev & used:
+            t["prev"] = {"overlap"}
+        else:
+            t["prev"] = {"disjoint"}
+        t["outside"] = {"none" if not outs else "same_unit" if out_units & used else "other_unit"}
+        t["defaulted"] = {"yes" if any(i["defaulted"] for i in ins) else "no"}
+        t["touchkind"] = {i["kind"] for i in ins} or {"none"}
+        t["repeat_in_request"] = {"yes" if len(ins) > len(used) else "no"}
+        reqs = {i["req"] for i in ins}
+        nsn, locn = len({r[0] for r in reqs}), len({r[1] for r in reqs})
+        t["mix"] = {"-" if not reqs else "one" if len(reqs) == 1 else "both" if nsn > 1 and locn > 1 else
+                    "namespaces" if nsn > 1 else "locales"}
+        cp = set()
+        for u in used:
+            cp |= self.cls[u]
+        t["cls_pos"] = cp if used else {"none"}
+        after = {"seen": seen_before | used | out_units, "first_outside": first_outside, "prev": used}
+        return t, after
+
+    def candidates(self, rng):
+        """single requests the coverage filler can choose from"""
+        by = {}
+        for i, inf in enumerate(self.info):
+            by.setdefault((inf["unit"], inf["kind"], inf["defaulted"]), []).append(i)
+        pick = lambda u, kind=None, dflt=False: next(
+            (rng.choice(v) for (uu, kk, dd), v in sorted(by.items(), key=lambda kv: repr(kv[0]))
+             if uu == u and dd == dflt and (kind is None or kk == kind)), None)
+        cands = [{"in": [], "out": []}]
+        units = self.all_units
+        for u in units:
+            for kind in ("plain_top", "plain_sub", "interp_top", "interp_sub"):
+                i = pick(u, kind)
+                if i is not None:
+                    cands.append({"in": [i], "out": []})
+                    cands.append({"in": [i], "out": [i]})                       # touched outside the provider first
+                    j = pick(u)
+                    cands.append({"in": [i, j], "out": []})                     # the unit twice
+            d = pick(u, None, True)
+            if d is not None:
+                cands.append({"in": [d], "out": []})
+                o = pick(u)
+                if o is not None:
+                    cands.append({"in": [d, o], "out": []})
+            i = pick(u)
+            if i is not None:
+                for w in rng.sample(units, min(3, len(units))):
+                    k = pick(w)
+                    if w != u and k is not None:
+                        cands.append({"in": [i, k], "out": []})
+                        cands.append({"in": [i], "out": [k]})                   # another unit touched outside only
+                        cands.append({"in": [k], "out": [i, k]})
+        everything = [x for x in (pick(u) for u in units) if x is not None]
+        cands.append({"in": everything, "out": []})
+        cands.append({"in": everything, "out": everything[:1]})
+        cands.append({"in": [], "out": everything[:2]})
+        for size in (2, 3, 4, 5):
+            for _ in range(6):
+                us = rng.sample(units, min(size, len(units)))
+                ins = [x for x in (pick(u, rng.choice([None, "plain_sub", "interp_top", "interp_sub"])) or pick(u) for u in us) if x is not None]
+                cands.append({"in": ins, "out": []})
+                cands.append({"in": ins + ins[:1], "out": ins[-1:]})
+        return cands
+
+
+def plan_requests(rng, plan, n_random, covered, cap):
+    """random requests first, then requests chosen (one or two at a time) to reach pairs of tag values not reached yet.
+    `covered` is the set of pairs reached so far in this run (updated)."""
+    reqs, st = [], plan.new_state()
+
+    def push(r):
+        nonlocal st
+        t, st2 = plan.tags(r, st)
+        covered.update(sc.case_pairs(t, DIMS))
+        reqs.append(r)
+        st = st2
+    push({"in": [], "out": []})                       # a page that uses no translation, at process start
+    idx = list(range(len(plan.touch_list)))
+    units = plan.all_units
+    by_unit = {u: [i for i in idx if plan.info[i]["unit"] == u] for u in units}
+    for _ in range(n_random):
         k = rng.choice([1, 1, 2, 2, 3, 4, len(units)])
         us = rng.sample(units, min(k, len(units)))
         r = []
         for u in us:
-            for _ in range(rng.choice([1, 1, 2, 3])):      # the same unit touched repeatedly, different keys
+            for _ in range(rng.choice([1, 1, 2, 3])):   # the same unit touched repeatedly, different keys
                 r.append(rng.choice(by_unit[u]))
         rng.shuffle(r)
-        reqs.append(r)
+        push({"in": r, "out": []})
+        if rng.random() < 0.3:
+            push({"in": list(r), "out": []})             # the same page again
+    feasible = {(A, a, B, b) for i, A in enumerate(DIMS) for B in list(DIMS)[i + 1:] for a in DIMS[A] for b in DIMS[B]
+                if not infeasible(A, a, B, b)}
+    cands = plan.candidates(rng)
+    setups = [None, {"in": [], "out": []}] + [c for c in cands if len(c["in"]) == len(units) and not c["out"]][:1]
+    while len(reqs) < cap:
+        missing = feasible - covered
+        if not missing:
+            break
+        best, gain = None, 0
+        for c in cands:
+            for su in setups + [c]:
+                seq = [c] if su is None else [su, c]
+                s2, got = st, set()
+                for r in seq:
+                    t, s2 = plan.tags(r, s2)
+                    got |= sc.case_pairs(t, DIMS)
+                g = len(got & missing) / len(seq)
+                if g > gain:
+                    best, gain = seq, g
+        if not best:
+            break
+        for r in best:
+            push(r)
     return reqs
 
 
-def one_project(ctx, exe_tables, proj, tag, n_requests):
+def one_project(ctx, exe_tables, proj, tag, n_random, covered, cap):
     rng = ctx.rng
     d = os.path.join(ctx.work, "probe_" + tag)
-    # keep target-independent files stable so that cargo only recompiles the probe itself
     touch_list = sc.touchables(proj)
     if len(touch_list) > 400:
         touch_list = rng.sample(touch_list, 400)
@@ -73,9 +280,12 @@ def one_project(ctx, exe_tables, proj, tag, n_requests):
     tables = sc.parse_harness_line(out.splitlines()[0])
     if tables["status"] != "OK":
         raise core.Infra("generated probe project rejected by the parser: %s" % tables["err"])
+    plan = Plan(proj, touch_list, tables)
+    reqs = plan_requests(rng, plan, n_random, covered, cap)
     exe = sc.build_probe(d, name)
-    reqs = gen_requests(rng, touch_list, n_requests)
-    rc, out, err = core.sh([exe], input="".join(",".join(map(str, r)) + "\n" for r in reqs), timeout=900)
+    # ONE process renders the whole sequence: whatever a request leaves behind in the process is seen by the next one
+    lines_in = "".join(",".join([str(i) for i in r["in"]] + ["o%d" % i for i in r["out"]]) + "\n" for r in reqs)
+    rc, out, err = core.sh([exe], input=lines_in, timeout=900)
     lines = out.splitlines()
     if rc != 0 or len(lines) != len(reqs):
         raise core.Infra("probe: %d lines for %d requests (rc %s); %s" % (len(lines), len(reqs), rc, err[-400:]))
@@ -84,12 +294,17 @@ def one_project(ctx, exe_tables, proj, tag, n_requests):
         unit_names[(ns, loc)] = "T_%s_%d" % (tag, j)
         defs.append("Definition T_%s_%d : list str := %s." % (tag, j, sc.coq_strs(u["strings"])))
     items, metas, panics = [], [], []
-    for r, line in zip(reqs, lines):
-        touched = [touch_list[i] for i in r]
-        used = sorted({(t[0], sc.effective_locale(proj, t[0], t[1], t[2])) for t in touched}, key=lambda x: (x[0] or "", x[1]))
-        meta = {"project": tag, "locales": proj.locales, "namespaces": proj.namespaces,
+    st = plan.new_state()
+    for seq_no, (r, line) in enumerate(zip(reqs, lines)):
+        tags, st = plan.tags(r, st)
+        touched = [touch_list[i] for i in r["in"]]
+        used = sorted({plan.info[i]["unit"] for i in r["in"]}, key=lambda x: (x[0] or "", x[1]))
+        meta = {"project": tag, "position_in_process": seq_no, "locales": proj.locales, "namespaces": proj.namespaces,
                 "touched": [{"namespace": t[0], "locale": t[1], "key": ".".join(t[2]),
-                             "reads_locale": sc.effective_locale(proj, t[0], t[1], t[2])} for t in touched],
+                             "reads_locale": plan.info[i]["unit"][1]} for i, t in zip(r["in"], touched)],
+                "touched_outside_provider": [{"namespace": touch_list[i][0], "locale": touch_list[i][1],
+                                              "key": ".".join(touch_list[i][2])} for i in r["out"]],
+                "tags": {k: sorted(v) for k, v in tags.items()},
                 "used_units": [{"namespace": ns, "locale": loc, "strings": tables["units"][(ns, loc)]["strings"]} for ns, loc in used]}
         if line == "PANIC":
             panics.append(meta)
@@ -103,8 +318,8 @@ def one_project(ctx, exe_tables, proj, tag, n_requests):
         meta["html_after_script"] = rest[:300]
         meta["embedded_intact"] = (body == raw)
         dec = sc.py_decode(body) if body is not None else None
-        exp = sorted((loc, ns, tuple(tables["units"][(ns, loc)]["strings"])) for ns, loc in used)
-        meta["python_decode_ok"] = dec is not None and sorted((l, i, tuple(v)) for l, i, v in dec) == exp and len(dec) == len(exp)
+        exp = sorted((loc, ns or "", tuple(tables["units"][(ns, loc)]["strings"])) for ns, loc in used)
+        meta["python_decode_ok"] = dec is not None and sorted((l, i or "", tuple(v)) for l, i, v in dec) == exp
         items.append("(mk_case17 %s %s)" % (
             core.coq_list([coq_unit(loc, ns, unit_names[(ns, loc)]) for ns, loc in used]),
             core.coq_opt(body, core.coq_str)))
@@ -128,16 +343,21 @@ def run(ctx):
     ok, problems = core.coq_audit(ctx, PROPS, THEOREMS)
     exe_tables = os.path.join(bindir, "h_strings")
     rng = ctx.rng
-    projects = [("ns", sc.gen_project(rng, max_locales=3, force_ns=True)),
-                ("plain", sc.gen_project(rng, max_locales=3, force_ns=False))]
+    # random projects (nested subkeys, defaulted keys, inherits) and class-matrix projects (every class of adversarial
+    # text first / in the middle / last in some unit's table), each with string ids (namespaces) and with the null id
+    projects = [("ns", sc.gen_project(rng, max_locales=3, force_ns=True), 30),
+                ("plain", sc.gen_project(rng, max_locales=3, force_ns=False), 30),
+                ("mx_ns", sc.matrix_project(rng, True), 10),
+                ("mx_a", sc.matrix_project(rng, False, shift=0, n_units=6), 10),
+                ("mx_b", sc.matrix_project(rng, False, shift=6, n_units=6), 10)]
     if not ctx.quick:
         for j in range(2, 5):
-            projects += [("ns%d" % j, sc.gen_project(rng, max_locales=4, force_ns=True)),
-                         ("plain%d" % j, sc.gen_project(rng, max_locales=4, force_ns=False))]
-    n_req = 60 if ctx.quick else 250
+            projects += [("ns%d" % j, sc.gen_project(rng, max_locales=4, force_ns=True), 150),
+                         ("plain%d" % j, sc.gen_project(rng, max_locales=4, force_ns=False), 150)]
     defs, items, metas, panics = [], [], [], []
-    for tag, proj in projects:
-        d, i, m, p = one_project(ctx, exe_tables, proj, tag, n_req)
+    covered = set()
+    for tag, proj, n_random in projects:
+        d, i, m, p = one_project(ctx, exe_tables, proj, tag, n_random, covered, cap=(400 if ctx.quick else 700))
         defs += d
         items += i
         metas += m
@@ -179,7 +399,7 @@ def run(ctx):
         if m["used_units"]:
             nontrivial.add(hashlib.sha256(repr((m["project"], [(u["namespace"], u["locale"]) for u in m["used_units"]],
                                                 sorted(t["key"] for t in m["touched"]))).encode()).hexdigest())
-        key = "units=%d,ns=%s" % (len(m["used_units"]), m["namespaces"] is not None)
+        key = "units=%d,ns=%s,hist=%s" % (min(len(m["used_units"]), 5), m["namespaces"] is not None, m["tags"]["hist"][0])
         hist[key] = hist.get(key, 0) + 1
     allstr = {s for m in metas for u in m["used_units"] for s in u["strings"]}
     classes = {
@@ -195,8 +415,10 @@ def run(ctx):
         s["to_array_output"] = s["to_array_output"][:200]
         s["used_units"] = [{"namespace": u["namespace"], "locale": u["locale"], "n_strings": len(u["strings"])} for u in s["used_units"]]
         samples.append(s)
+    pw = sc.pairwise([{k: set(v) for k, v in m["tags"].items()} for m in metas], DIMS, infeasible)
     core.write_evidence(ctx, {
         "evaluations": len(metas), "distinct_nontrivial": len(nontrivial),
+        "pairwise_coverage": pw,
         "rule": "per run two (thorough: eight) generated projects, one with namespaces (string ids) and one without (null id), "
                 "1-3 (4) locales, nested subkeys, strings from the adversarial pool (quotes, backslashes, controls, </script>, "
                 "<!--, U+2028/9, astral, combining), compiled with load_locales!() under dynamic_load+ssr; requests = the empty "
